@@ -10,7 +10,7 @@ use serde_json::{json, Value};
 pub static ENGINE: Engine = Engine {
     prop: "C12",
     level: "exploration",
-    rule: "every byte string <= 2 (3) bytes over all 256 byte values; every sequence <= 4 (5) of lexemes over the 33 token kinds plus extreme lexemes (numbers around 2^63/2^64, 40 digits, non-ASCII digits, unbalanced quote/brace, NUL); flat inputs of every length 2^j, 2^j+-1 up to 64 KiB; every nesting depth 1..200 of 7 nesting constructs; each through tokenize, ParsedFormula::new and (when the reference says all fixed points converge) eval under catch_unwind. CLI: a formula core x every combination of {-t,-v,-m,-r,-d,-p} x {-c none/t/f} x {-f none/t/f} x {no ordering, reversed, superset, formula-as-ordering}; exit 101 / signal = violation. distinct = distinct (outcome class, token-list) pairs in-process + distinct (exit status, stdout) pairs for the CLI",
+    rule: "every byte string <= 2 (3) bytes over all 256 byte values; every sequence <= 4 (5) of lexemes over the 33 token kinds plus extreme lexemes (numbers around 2^63/2^64, 40 digits, non-ASCII digits, unbalanced quote/brace, NUL); flat inputs of every length 2^j, 2^j+-1 up to 64 KiB; every nesting depth 1..200 of 7 nesting constructs; each through tokenize, ParsedFormula::new and (when the reference says all fixed points converge) eval under catch_unwind. CLI: a formula core x every combination of {-t,-v,-m,-r,-d,-p} x {-c none/t/f} x {-f none/t/f} x {no ordering, reversed, superset, formula-as-ordering}, plus -b 0 / -b 2 x {-t,-v,-m,-r}; exit 101 / signal = violation. distinct = distinct (outcome class, token-list) pairs in-process + distinct (exit status, stdout) pairs for the CLI",
     assumptions: &[
         "resource exhaustion on inputs whose evaluation is exponential by design is outside the claim",
         "fixed points the reference model finds divergent are not evaluated; exhaustion of the 20000-iteration fuel is reported by C01/C06, not here",
@@ -373,6 +373,20 @@ fn cli_invocations(formula: &str) -> Vec<Inv> {
                         parsetree: flags & 32 != 0,
                     });
                 }
+            }
+        }
+    }
+    // benchmark repetitions (incl. zero) with every combination of the four print flags
+    for ord in &orderings {
+        for b in ["0", "2"] {
+            for flags in 0..16u32 {
+                let mut opts: Vec<String> = vec!["-b".into(), b.into()];
+                for (bit, f) in [(1, "-t"), (2, "-v"), (4, "-m"), (8, "-r")] {
+                    if flags & bit != 0 {
+                        opts.push(f.into());
+                    }
+                }
+                out.push(Inv { formula: formula.as_bytes().to_vec(), channel: Channel::Evaluate, ordering: ord.as_ref().map(|o| o.as_bytes().to_vec()), opts, dot: flags & 3 == 3, parsetree: false });
             }
         }
     }
